@@ -75,6 +75,52 @@ def run_C09(rep, g):
             rep.ob('R-ARB-ANY', all(o.kind == 'return' for o in outs), g, 'other types: arbitrary = inner arbitrary + new, no panic path', {})
 
 
+def run_C02(rep, g):
+    # every written sanitizer / validator / bound is present in the guard program with the value its spelling denotes
+    rules.check_ctor(rep, g)
+    rules.check_error_enum(rep, g)
+    # derive(..) blocks: every written trait is derived (union of repeated blocks, if accepted at all)
+    if g.d.get('split') and g.d['split'].get('derive'):
+        rules.check_derived_cmp(rep, g)
+        rules.check_conversions(rep, g)
+
+
+def g_C02(tier):
+    from . import gsrc
+    files = gsrc.generator_files()
+    anchors, inst, v1 = gsrc.g_lww(files)
+    fns, sites, v2 = gsrc.g_spec(files)
+    findings = [{'rule': 'G-LWW', 'site': f"{v['file']}::{v['fn']}::attrs.{v['field']}", 'what': v['what'], 'detail': v} for v in v1]
+    findings += [{'rule': 'G-SPEC', 'site': f"{v['file']}::{v['fn']}::{v['expr']}", 'what': v['what'], 'detail': v} for v in v2]
+    return {'instances': {'G-LWW attribute-loop data assignments': inst, 'G-SPEC ParseStream fns scanned': fns, 'G-SPEC speculative parse sites': sites},
+            'findings': findings, 'floor': ('G-LWW attribute-loop data assignments', inst if anchors == 1 else 0, 4),
+            'samples': [{'rule': 'G-SPEC', 'fns': fns, 'speculative_sites': sites}]}
+
+
+def run_C15(rep, g):
+    rules.check_nostd_paths(rep, g)
+
+
+def g_C15(tier):
+    from . import gsrc
+    files = gsrc.generator_files()
+    inst, sites, viol = gsrc.g_std(files)
+    findings = [{'rule': 'G-STD', 'site': f"{v['file']}::{v['fn']}", 'what': v['what'], 'detail': v} for v in viol]
+    return {'instances': {'G-STD quote! bodies scanned': inst, 'G-STD std path sites (allow-listed with reason)': len(sites) - len(viol)},
+            'findings': findings, 'floor': ('G-STD quote! bodies scanned', inst, 200),
+            'samples': [{'rule': 'G-STD', 'site': s} for s in sites[:4]]}
+
+
+G_PROPS = {'C15': g_C15, 'C02': g_C02}
+
+# which corpus crates / declarations a property looks at (default: every declaration of std crates + nostd)
+SELECT = {
+    'C15': lambda cn, c, d: not c['std'],
+}
+# properties for which a corpus declaration the current tree refuses to compile is itself a violation
+DROPPED_IS_VIOLATION = {'C15': lambda cn, c: not c['std'], 'C08': lambda cn, c: True, 'C02': lambda cn, c: True}
+
+
 def run_C16(rep, g):
     rules.check_messages(rep, g)
 
@@ -97,7 +143,7 @@ def crate_C05(rep, F, gens):
 CRATE_PROPS = {'C05': crate_C05, 'C04': crate_C05, 'C12': crate_C05, 'C09': crate_C05}
 
 from . import witcat
-W_PROPS = {'C05': witcat.c05_witnesses, 'C07': witcat.c07_witnesses, 'C12': witcat.c12_witnesses}
+W_PROPS = {'C05': witcat.c05_witnesses, 'C07': witcat.c07_witnesses, 'C12': witcat.c12_witnesses, 'C15': witcat.c15_witnesses, 'C02': witcat.c02_witnesses}
 
 E_PROPS = {
     'C01': run_C01,
@@ -105,6 +151,8 @@ E_PROPS = {
     'C04': run_C04,
     'C06': run_C06,
     'C10': run_C10,
+    'C02': run_C02,
+    'C15': run_C15,
     'C09': run_C09,
     'C14': run_C14,
     'C16': run_C16,
